@@ -10,8 +10,8 @@ mkdir -p work
 bad=0
 for d in ${@:-$(ls -d benign/*/ | xargs -n1 basename)}; do
   case $d in
-    *eq) props="C02 C14 C15";; *ord) props="C03 C04 C14 C15 C17";; *hash) props="C05 C14 C15";; *debug) props="C06 C14 C15 C20";;
-    *clone) props="C07 C15 C20";; *default) props="C08 C14 C15 C20";; *deref) props="C09 C15";; *into) props="C10 C14 C15";; *) props="C02";;
+    *eq) props="C02 C14 C15";; *ord|*ord2) props="C03 C04 C14 C15 C17";; *hash|*hash2) props="C05 C14 C15 C20";; *debug) props="C06 C14 C15 C20";;
+    *clone|*clone2) props="C07 C15 C20";; *default) props="C08 C14 C15 C20";; *deref) props="C09 C15";; *into) props="C10 C14 C15";; *union) props="C20 C08";; *) props="C02";;
   esac
   git -C $R checkout -q -- . ; git -C $R clean -fdq src; git -C $R apply "$(pwd)/benign/$d/patch.diff" || { echo "$d: patch does not apply"; continue; }
   for prop in $props; do
